@@ -97,6 +97,29 @@ Proof. exact monitor_C12_destroy. Qed.
 Theorem C12_monitor_refuted : exists sc c0, WF sc c0 /\ mon_C12 sc c0 (run sc c0) = false.
 Proof. exact monitor_C12_refuted. Qed.
 
+(* non-vacuity with an object held by a finalizer: the delete of object 1 is accepted but the object
+   lingers; the delete wait runs into the prune timeout: one Timeout event, for object 1 only, the run
+   continues to the inventory-set task without an error event, and object 1 stays in the inventory
+   (the inventory conjunct of the monitor); hypotheses of C12_monitor_partial hold *)
+Example C12_nonvacuous_finalizer_timeout :
+  let univ := [mkU KNs None None; mkUF KPlain None None true; mkU KPlain None None] in
+  let o := mkO true true PMustMatch DNone VSkipInvalid false false true false PropBackground false in
+  let sc := mkSc univ None [] o
+                 (mkE [] [mkW [mkS 2 SNotFound false 0%N 0%Z; mkS 1 STerminating true 5%N 2%Z] WTimeout] CNever None) in
+  let obj i u := mkC i u OOurs false [] false 1 None in
+  let c0 := mkCl [obj 1 5%N; obj 2 6%N] (Some [1; 2]) 9%N in
+  WF sc c0 /\ kf_free sc c0 /\
+  filter (fun e => match e with EWait _ _ _ => true | _ => false end) (events (out_trace (run sc c0))) =
+    [EWait (GWait, 0) 2 WPending; EWait (GWait, 0) 1 WPending; EWait (GWait, 0) 2 WOk; EWait (GWait, 0) 1 WTimedOut] /\
+  has_error (out_trace (run sc c0)) = false /\
+  existsb (fun e => match e with EFinished (GInvSet, 0) => true | _ => false end) (events (out_trace (run sc c0))) = true /\
+  out_final (run sc c0) = mkCl [obj 1 5%N] (Some [1]) 9%N /\
+  mon_C12 sc c0 (run sc c0) = true.
+Proof.
+  cbv zeta. split; [apply wf_b_spec; vm_compute; reflexivity|].
+  split; [apply kf_freeb_sound; vm_compute; reflexivity|]. vm_compute. repeat split; reflexivity.
+Qed.
+
 Print Assumptions C12_monitor_events.
 Print Assumptions C12_monitor_partial.
 Print Assumptions C12_monitor_destroy.
